@@ -190,6 +190,42 @@ def stream_init(tier, keepalive_oracle=False):
                         res.violation("init-close-flag", "close requests honoured=%s after agreeing %r" % (srv._close_expected, want or "1.8.0"), inp)
                     if kind == "data" and not lsn:
                         res.violation("init-listener", "set_listener not called after initialize", inp)
+    # ---- one configuration object serving several servers (a Metadata and a Data server of one process, or two of a kind):
+    # each initialize() still receives exactly its own Proxy's parameters overlaid by the local ones
+    for r in range({"quick": 40, "search": 120, "thorough": 1200}[tier]):
+        shared = {}
+        for q in range(R.choice([0, 1, 2])):
+            shared[R.choice(["a", "param1", "local%d" % q])] = gen_text(R)
+        kinds = R.choice([("meta", "data"), ("data", "meta"), ("data", "data"), ("meta", "meta")])
+        before = dict(shared)
+        for n, kind in enumerate(kinds):
+            pairs = [("ARI.version", "1.9.1")]
+            for q in range(R.choice([1, 2, 3])):
+                pairs.append((R.choice(["a", "b", "proxy.instance_id", "k%d" % q]), "srv%d-%s" % (n, gen_text(R, False) or "z")))
+            toks = []
+            for k, x in pairs:
+                toks += ["S", ari.enc_text(k), "S", ari.enc_text(x)]
+            log = []
+            srv = make_server(kind, None, log, ("ret", None), ("ret", None))
+            try:
+                srv.adapter_params = shared
+                srv._close_expected = True
+                rm = _RM()
+                rm.sender = srv.keep_alive
+                srv._request_manager = rm
+                srv._on_dpi(list(toks)) if kind == "data" else srv._on_mpi(list(toks))
+            finally:
+                srv._executor.shutdown(wait=False)
+            inits = [x for x in log if x[0] == "initialize"]
+            merged = {k: x for k, x in dict(pairs).items() if k != "ARI.version"}
+            merged.update(before)
+            res.evaluations += 1
+            res.distribution["shared_config_inits"] += 1
+            if len(inits) != 1 or inits[0][1] != merged:
+                res.violation("init-params-shared-config", "server %d of %r configured with one shared parameter dictionary %r: initialize received %r, expected %r"
+                              % (n + 1, kinds, before, inits[0][1] if inits else None, merged),
+                              {"kinds": kinds, "shared": before, "server": n + 1, "tokens": toks})
+                break
     res.sample({"op": ops[0], "impl": impl[0]})
     res.sample({"op": ops[len(ops) // 2], "impl": impl[len(ops) // 2]})
     diff(res, ops, impl)
